@@ -62,6 +62,9 @@ func (e *FuncEnc) resolveClosure(v ssa.Value, depth int) *ssa.MakeClosure {
 		if x.Op != token.MUL {
 			return nil
 		}
+		if el := e.sliceLitElem(x); el != nil {
+			return e.resolveClosure(el, depth+1)
+		}
 		var al *ssa.Alloc
 		switch c := x.X.(type) {
 		case *ssa.Alloc:
